@@ -244,9 +244,26 @@ func (a *Act) applyLemmaR(u *Clause, st *State, phiEnv map[ssa.Value]string, rea
 	e := a.newEnv(st, phiEnv, results)
 	var args []string
 	specArg := map[int]bool{}
+	var anyVars, anyRanges []string
+	anyParams := map[int]bool{}
 	func() {
 		defer wrapClauseErr(u)
 		for i, ax := range call.Args {
+			// any(T): the lemma holds for every value of this parameter (it was proved for an arbitrary one): the
+			// instantiation is universally quantified over it. Its requires must not mention that parameter.
+			if ce, ok := ax.(*ast.CallExpr); ok {
+				if fid, ok := ce.Fun.(*ast.Ident); ok && fid.Name == "any" && len(ce.Args) == 1 {
+					t := e.evalType(ce.Args[0])
+					bv := fmt.Sprintf("any_%d_%d", len(g.assumes), i)
+					anyVars = append(anyVars, fmt.Sprintf("(%s %s)", bv, g.sortOf(t)))
+					if rf := rangeFact(t, bv); rf != "" {
+						anyRanges = append(anyRanges, rf)
+					}
+					anyParams[i] = true
+					args = append(args, bv)
+					continue
+				}
+			}
 			v := e.value(e.eval(ax))
 			if v.smap || v.spec {
 				specArg[i] = true
@@ -257,12 +274,25 @@ func (a *Act) applyLemmaR(u *Clause, st *State, phiEnv map[ssa.Value]string, rea
 	cs := &callSite{a: a, ct: ct, fn: fn, args: args, pre: st, specArg: specArg}
 	for i, cl := range ct.Requires {
 		for j, c := range cs.evalClause(cl, st, nil) {
+			for _, av := range anyVars {
+				name := strings.Fields(strings.Trim(av, "()"))[0]
+				if strings.Contains(c, name) {
+					panic(contractError{fmt.Sprintf("%s: lemma %s: a precondition depends on a parameter instantiated with any()", u.Where, key)})
+				}
+			}
 			g.oblige("lemma-pre", fmt.Sprintf("%s:%s:%s", u.Where, key, clauseLabel(cl, i, j)), reach, c, a.pos(a.fn.Pos()), "precondition of lemma "+key+": "+cl.Text)
 		}
 	}
 	cs.res = []string{}
 	for _, cl := range ct.Ensures {
 		for _, c := range cs.evalClause(cl, st, st) {
+			if len(anyVars) > 0 {
+				body := c
+				if len(anyRanges) > 0 {
+					body = fmt.Sprintf("(=> (and %s) %s)", strings.Join(anyRanges, " "), c)
+				}
+				c = fmt.Sprintf("(forall (%s) %s)", strings.Join(anyVars, " "), body)
+			}
 			g.assumeIf(reach, c)
 		}
 	}
